@@ -335,7 +335,10 @@ fn build(op: &str, r: &Value, origin: &Name, uniq: u32) -> Built {
     let mut verifier = None;
     if r["signed"].as_bool().unwrap() {
         let alg = if r["alg"] == "cfg" { TsigAlgorithm::HmacSha256 } else { TsigAlgorithm::HmacSha512 };
-        let s = if r["macKey"] == "kprefix" {
+        let s = if let Some(rf) = r["rfudge"].as_u64().filter(|f| *f != FUDGE as u64) {
+            // the sender states a smaller fudge than the server's configuration knows
+            TSigner::new(secret(r["macKey"].as_str().unwrap()), alg, key_name(r["keyName"].as_str().unwrap()), rf as u16).expect("signer")
+        } else if r["macKey"] == "kprefix" {
             TSigner::new(secret_prefix(r["keyName"].as_str().unwrap()), alg, key_name(r["keyName"].as_str().unwrap()), FUDGE).expect("signer")
         } else {
             signer(r["keyName"].as_str().unwrap(), r["macKey"].as_str().unwrap(), alg)
